@@ -34,6 +34,7 @@ package main
 import (
 	"bufio"
 	"fmt"
+	"github.com/KevoDB/kevo/pkg/wal"
 	"math/rand"
 	"os"
 	"sort"
@@ -136,11 +137,11 @@ type stallCfg struct {
 	mode   string // none flip every closed window
 	marked atomic.Int64
 	closed atomic.Int64
-	n     int
-	ms    int
-	count atomic.Int64
-	inWin atomic.Int64
-	fired atomic.Int64
+	n      int
+	ms     int
+	count  atomic.Int64
+	inWin  atomic.Int64
+	fired  atomic.Int64
 }
 
 func parseStall(s string) *stallCfg {
@@ -247,6 +248,14 @@ func runC06(c *Case, out func(string)) {
 		return
 	}
 	run := &c06Run{e: e, hist: map[int][]*hop{}}
+	// an observer of the log's sync notifications, as the replication primary is one (it stores every
+	// value it is told as "last synced sequence", what node information and the protocol report):
+	// the values are handed out under the log's mutex and must never go back, across rotations too
+	// (the observers are handed over to the new log)
+	sobs := &c06SyncObs{}
+	if w := e.VerifStorage().VerifWAL(); w != nil {
+		w.RegisterObserver("verif-c06-sync", sobs)
+	}
 
 	// programs
 	progs := map[int][][]string{}
@@ -461,6 +470,8 @@ func runC06(c *Case, out func(string)) {
 		out("ORACLE FAIL gate script: " + gateFail)
 	case verdict != "":
 		out("ORACLE FAIL " + verdict)
+	case sobs.bad() != "":
+		out("ORACLE FAIL " + sobs.bad())
 	default:
 		out("ORACLE ok")
 	}
@@ -518,8 +529,9 @@ func runC06(c *Case, out func(string)) {
 }
 
 // runGate executes the gate script of hand-written cases:
-//   hold <site> | release <site> | waitsite <site> <n> | start <tid> | waitdone <tid> |
-//   flush (asynchronous FlushImMemTables) | sleep <ms>
+//
+//	hold <site> | release <site> | waitsite <site> <n> | start <tid> | waitdone <tid> |
+//	flush (asynchronous FlushImMemTables) | sleep <ms>
 func (r *c06Run) runGate(script [][]string, start map[int]chan struct{}, done map[int]chan struct{}) string {
 	for _, l := range script {
 		switch l[0] {
@@ -845,3 +857,26 @@ func genC06(w *bufio.Writer, seed int64, n int, tier string) {
 		fmt.Fprintf(w, "end\n")
 	}
 }
+
+// c06SyncObs: records the sequence numbers the log reports as synced
+type c06SyncObs struct {
+	mu   sync.Mutex
+	last uint64
+	n    int
+	viol string
+}
+
+func (o *c06SyncObs) OnWALEntryWritten(*wal.Entry)           {}
+func (o *c06SyncObs) OnWALBatchWritten(uint64, []*wal.Entry) {}
+func (o *c06SyncObs) OnWALSync(upTo uint64) {
+	o.mu.Lock()
+	o.n++
+	if upTo < o.last && o.viol == "" {
+		o.viol = fmt.Sprintf("the log reported sequence number %d as synced after it had reported %d (notification #%d): the last synced sequence an observer (the replication primary) publishes went back", upTo, o.last, o.n)
+	}
+	if upTo > o.last {
+		o.last = upTo
+	}
+	o.mu.Unlock()
+}
+func (o *c06SyncObs) bad() string { o.mu.Lock(); defer o.mu.Unlock(); return o.viol }
